@@ -358,4 +358,32 @@ theorem load_old_files (ver : PyVal) (vt : VerT) (hvt : versionTuple ver = .ok v
     rw [keysOf_mem O hO.1 v as hmemO]
     exact hb'
 
+/-! ### a successful load has read every image dictionary, and every filing sits under a key of the manifest -/
+
+theorem loadTriples_reads (ver images : PyVal) :
+    ∀ (ts : List (Str × Str × PyVal)) (acc r : ImgState × Nat), loadTriples ver images ts acc = .ok r →
+      ∀ t ∈ ts, ∃ img, Image.deserialize ver t.2.2 = .ok img := by
+  intro ts
+  induction ts with
+  | nil => intro _ _ _ t ht; cases ht
+  | cons t rest ih =>
+    intro acc r h t' ht'
+    simp only [loadTriples] at h
+    cases h1 : loadCell ver images (.str t.1) (.str t.2.1) [t.2.2] acc with
+    | error e => rw [h1] at h; cases h
+    | ok r1 =>
+      rw [h1] at h
+      rcases List.mem_cons.mp ht' with rfl | hrest
+      · obtain ⟨s, n⟩ := acc
+        unfold loadCell at h1
+        obtain ⟨img, hd, _⟩ := bind_ok h1
+        exact ⟨img, hd⟩
+      · exact ih r1 r h t' hrest
+
+theorem archKey_of_entry {cs : Cells} {e : Str × Str × Nat × Image} (h : e ∈ entries cs) : e.2.1 ∈ archKeys cs := by
+  simp only [entries, List.mem_flatMap, List.mem_map] at h
+  obtain ⟨va, hva, ac, hac, x, _, rfl⟩ := h
+  simp only [archKeys, List.mem_flatMap, List.mem_map]
+  exact ⟨va, hva, ac, hac, rfl⟩
+
 end PM.Img
